@@ -126,18 +126,9 @@ func checkC18(c caseC18) (Outcome, error) {
 			if stripSGR(res.Out) != stripSGR(plainOut[name]) {
 				return out, fmt.Errorf("%s under theme %s differs from the unstyled output by more than SGR sequences\ntext: %s\nstyled:   %s\nunstyled: %s", name, theme, quoteShort(text), quoteShort(res.Out), quoteShort(plainOut[name]))
 			}
-			if c18Tables[name] && strings.TrimSpace(res.Out) != "" && !hasESC {
+			if c18Tables[name] && strings.TrimSpace(res.Out) != "" && !hasESC && c.Flags&64 == 0 { // (with warnings off: what follows the table is not a row)
 				// all rows of the table have the same number of visible characters
 				lines := strings.Split(strings.Trim(stripSGR(res.Out), "\n"), "\n") // blank framing lines are not rows
-				if c.Flags&64 != 0 {
-					// warnings follow the table: only the table part is measured
-					for i, l := range lines {
-						if strings.HasPrefix(l, "[WARNING]") {
-							lines = lines[:i]
-							break
-						}
-					}
-				}
 				for i, l := range lines {
 					if utf8.RuneCountInString(l) != utf8.RuneCountInString(lines[0]) {
 						return out, fmt.Errorf("%s under theme %s: row %d has %d visible characters, row 0 has %d\noutput:\n%s", name, theme, i, utf8.RuneCountInString(l), utf8.RuneCountInString(lines[0]), stripSGR(res.Out))
